@@ -25,7 +25,9 @@ Traces == ndJsonDeserialize(IOEnv.TRACE_FILE)
 NT == Len(Traces)
 
 VARIABLES tid, l, verdict,
-          st,      \* c -> "fresh" | "backlog" | "open" | "handled" | "idle" | "closing" | "closed"
+          st,      \* c -> "fresh" | "backlog" | "open" | "handled" | "keeping" | "idle" | "closing" | "closed"
+                   \*   handled: submitted, handler not returned; keeping / closing: handler returned
+                   \*   (keep-alive or not), completion not yet published; idle: waiting for the next request
           pend,    \* c -> a complete request has arrived and was not yet dispatched
           left,    \* c -> the client closed its end
           dl,      \* c -> earliest legitimate keep-alive expiry (handler return + ka)
@@ -40,7 +42,7 @@ vars == <<tid, l, verdict, st, pend, left, dl, dll, wait, exp, late, busy, acc, 
 T == Traces[tid]
 C == T.cfg
 Conns == 1..C.nconn
-Open(s) == s \in {"open", "handled", "idle", "closing"}
+Open(s) == s \in {"open", "handled", "keeping", "idle", "closing"}
 
 Init ==
   /\ tid \in 1..NT /\ l = 1 /\ verdict = "ok"
@@ -86,7 +88,7 @@ QuiescentVerdict(e) ==
 \* worker; idle connections from before the stop request may be left to process exit
 ExitVerdict(e) ==
   IF e.nr # acc - cls THEN "Accounting"
-  ELSE IF \E c \in Conns : st[c] = "closing" \/ (st[c] = "idle" /\ late[c]) THEN "AllClosedAtEnd"
+  ELSE IF \E c \in Conns : st[c] = "closing" \/ (st[c] \in {"idle", "keeping"} /\ late[c] /\ busy = 0) THEN "AllClosedAtEnd"
   ELSE "ok"
 
 Step ==
@@ -117,19 +119,21 @@ Step ==
             /\ Same(<<left, dl, dll, late, acc, cls, stopping>>)
        [] e.e = "jobend" ->
             /\ st' = [st EXCEPT ![c] = IF st[c] # "handled" THEN st[c]
-                                        ELSE IF e.x = "keep" THEN "idle" ELSE "closing"]
+                                        ELSE IF e.x = "keep" THEN "keeping" ELSE "closing"]
             /\ dl' = [dl EXCEPT ![c] = e.now + C.ka] /\ dll' = [dll EXCEPT ![c] = e.now + C.ka]
             /\ late' = [late EXCEPT ![c] = stopping]
             /\ verdict' = "ok"
             /\ Same(<<pend, left, wait, exp, busy, acc, cls, stopping>>)
        [] e.e = "reg" ->
-            /\ dll' = IF c \in Conns THEN [dll EXCEPT ![c] = IF st[c] = "idle" THEN e.now + C.ka ELSE dll[c]]
+            /\ dll' = IF c \in Conns THEN [dll EXCEPT ![c] = IF st[c] \in {"idle", "keeping"} THEN e.now + C.ka ELSE dll[c]]
                       ELSE dll
             /\ verdict' = "ok"
             /\ Same(<<st, pend, left, dl, wait, exp, late, busy, acc, cls, stopping>>)
        [] e.e = "finish" ->
             /\ busy' = busy - 1 /\ verdict' = "ok"
-            /\ Same(<<st, pend, left, dl, dll, wait, exp, late, acc, cls, stopping>>)
+            /\ st' = [st EXCEPT ![c] = IF st[c] = "keeping" THEN "idle" ELSE st[c]]
+            /\ dll' = [dll EXCEPT ![c] = IF st[c] = "keeping" THEN e.now + C.ka ELSE dll[c]]
+            /\ Same(<<pend, left, dl, wait, exp, late, acc, cls, stopping>>)
        [] e.e = "cancel" ->
             /\ busy' = busy - 1 /\ verdict' = "ok"
             /\ st' = [st EXCEPT ![c] = IF st[c] = "handled" THEN "closing" ELSE st[c]]
